@@ -22,9 +22,9 @@ Theorem C20_last_index_in_range : forall idx len, i32 idx -> len_ok len -> i64 (
 Proof. exact last_index_in_range. Qed.
 Print Assumptions C20_last_index_in_range.
 
-Theorem C20_saturating_neg_in_range : forall v, i32 v -> i32 (saturating_neg32 v).
-Proof. exact saturating_neg_in_range. Qed.
-Print Assumptions C20_saturating_neg_in_range.
+Theorem C20_last_minus_in_range : forall v n, i64 v -> last_minus v = Some n -> n = (- v)%Z /\ i32 n /\ i64 (- v).
+Proof. exact last_minus_in_range. Qed.
+Print Assumptions C20_last_minus_in_range.
 
 Theorem C20_slice_bounds : forall s e len, i64 s -> i64 e -> len_ok len -> 0 < len -> s <= e -> s < len -> 0 <= e ->
   0 <= Z.max 0 s <= Z.min (len - 1) e /\ Z.min (len - 1) e < len.
